@@ -190,6 +190,13 @@ func (fr *Frame) execAppend(c *ssa.CallCommon, resT types.Type, st *State, r str
 			if e0 == nil && e1 == nil && e2 == nil {
 				if cat, e3 := env.applySpec(sfCat, []tval{a0, a1}); e3 == nil {
 					vc.assert(sImp(r, sEq(a2.C[0], cat.C[0])))
+					// the sequence of an empty slice is the empty sequence (stated for the operands of this append)
+					if sfE, okE := fr.eng.cs.lookupSpec("", "seqEmpty"); okE {
+						if em, e4 := env.applySpec(sfE, nil); e4 == nil {
+							vc.assert(sImp(sAnd(r, sEq(s[2], "0")), sEq(a0.C[0], em.C[0])))
+							vc.assert(sImp(sAnd(r, sEq(t[2], "0")), sEq(a1.C[0], em.C[0])))
+						}
+					}
 				} else if os.Getenv("GOVC_DEBUG") != "" {
 					fmt.Fprintln(os.Stderr, "seq fact:", e3)
 				}
